@@ -253,7 +253,8 @@ Definition phase (k : kind) (q : queue) (o : orc) (i : ist) : pres :=
       else Ret s [] (i_retq i)
   (* dispatch_source_cancel_and_wait with the drain lock taken (source.c:1062-1074) *)
   | OCD1 =>
-      if negb (deleted (fl s)) then let '(s1, a) := refs_unregister o s in cont s1 OCD2 i a
+      (* ds_is_installed = true first: a source whose registration was deferred must not be installed once deleted *)
+      if negb (deleted (fl s)) then let '(s1, a) := refs_unregister o (with_installed s) in cont s1 OCD2 i a
       else cont s OCD2 i []
   | OCD2 =>
       if deleted (fl s) then let '(s1, a, called) := cancel_callout s in
@@ -552,7 +553,7 @@ Definition mon_step (kt kd : Z) (m : mst) (e : event) : option mst :=
     | None => None
     | Some old =>
         let fin := is_commit (flags_set_and_clear_loop 0 DSF_DELETED (Z.lor DSF_NEEDS_EVENT DSF_CANCEL_WAITER) old) (eb e) in
-        if fin || is_commit (cancel_and_wait_loop 0 old kt kd) (eb e) || is_commit (refs_unregister_loop 0 0 old) (eb e) then
+        if fin || is_commit (cancel_and_wait_loop 0 old kt kd) (eb e) then
           if eok e =? 1 then (if ea e =? old then Some (mkM (Some (eb e)) (fin && has old BIT_WAITER)) else None)
           else Some (mkM (Some (ea e)) false)
         else None
